@@ -580,6 +580,12 @@ func (bf *boundsFunc) linOf(e ast.Expr) (lin, bool) {
 		return lin{}, false
 	}
 	switch x := e.(type) {
+	case *ast.UnaryExpr:
+		if x.Op == token.SUB {
+			if a, ok := bf.linOf(x.X); ok {
+				return newLin().add(a, -1), true
+			}
+		}
 	case *ast.BasicLit:
 		// synthetic literal (the 1 of p++ / p--)
 		if x.Kind == token.INT {
@@ -1065,6 +1071,14 @@ func (bf *boundsFunc) assign1(s *bstate, l, r ast.Expr) {
 				repl.t[name] = 1
 				repl = repl.add(d, -1)
 				s.subst(name, repl)
+				return
+			} else if self && co == -1 {
+				// v = d - v : substitute v := d - v'
+				d := v.clone()
+				delete(d.t, name)
+				repl := newLin()
+				repl.t[name] = -1
+				s.subst(name, repl.add(d, 1))
 				return
 			} else if !self {
 				killPath(s, pk)
